@@ -235,6 +235,13 @@ def _history(ctx, spec, rng, names, kind, reg, dynamic):
                 undeclare=2 if kind == 'bdd' else 0, canon=10,
                 copy_roundtrip=2, dump_load=2,
                 gc_rooted=1, clone=1 if kind == 'bdd' else 0)
+    if kind == 'bdd' and not dynamic and spec['sub'] % 2 == 0:
+        # functions are built over all names but one or two, so that
+        # declared-but-unused variables sit above and between used ones
+        # and are removed while nodes exist below them
+        w.build_names = set(rng.sample(names, max(1, len(names) - 2)))
+        menu.update(undeclare=5, declare=3)
+        ctx.counters['histories_with_unused_variables'] += 1
     if dynamic:
         # (steps that keep an unreferenced dd.bdd result across another
         # operation are left out: reordering may legitimately free it)
